@@ -23,6 +23,12 @@ class TraceViolation(Exception):
         self.detail = detail
 
 
+class InjectedKeyError(KeyError, InjectedWriteFailure):
+    """An injected write failure that IS a KeyError (a store that reports a refused write that
+    way): the library treats KeyError from READS specially in many places - a failed write is
+    not one of them."""
+
+
 class RecordingDB:
     def __init__(self, initial=None, name="db"):
         self._d = dict(initial or {})
@@ -33,6 +39,7 @@ class RecordingDB:
         self.checkers = []        # callables (db, op, key, value) -> None or raise
         self._hidden = {}         # node bodies taken away by hide(): physically absent
         self.fail_write_at = None  # 1-based index of the write that raises
+        self.fail_write_exc = InjectedWriteFailure
         self.writes = 0
         self.reads = 0
         self.deletes = 0
@@ -92,7 +99,7 @@ class RecordingDB:
         self._event("set", key, value)
         if self.fail_write_at is not None and self.writes == self.fail_write_at:
             self.injected_failures += 1
-            raise InjectedWriteFailure("injected failure of write #%d" % self.writes)
+            raise self.fail_write_exc("injected failure of write #%d" % self.writes)
         self._d[key] = value
         self._hidden.pop(key, None)
 
